@@ -215,4 +215,20 @@ def run : St → List Msg → St × List Sub
     let (st2, rest) := run st1 ms
     (st2, subsOf o ++ rest)
 
+/-! ### vocabulary of the property statements -/
+
+/-- the message carries a correct share for root `r` -/
+def goodFor (r : Nat) (m : Msg) : Bool := m.entries.any fun e => e.2.1 == r && e.2.2
+
+/-- the message carries a wrong share -/
+def hasBadShare (m : Msg) : Bool := m.entries.any fun e => !e.2.2
+
+/-- member `s` delivered a correct share for root `r` in a well-formed message of `ms` -/
+def SentGood (cm expected : List Nat) (r : Nat) (ms : List Msg) (s : Nat) : Prop :=
+  ∃ m ∈ ms, m.signer = s ∧ validateForm cm expected m = none ∧ goodFor r m = true
+
+/-- member `s` sent a malformed message or a wrong share somewhere in `ms` -/
+def SentBad (cm expected : List Nat) (ms : List Msg) (s : Nat) : Prop :=
+  ∃ m ∈ ms, m.signer = s ∧ (validateForm cm expected m ≠ none ∨ hasBadShare m = true)
+
 end Ssv.PartialSig
